@@ -181,6 +181,34 @@ def r3c_bind_check(rule, root=None):
     else:
         rule.bad("ShapeVars::check|error", "ShapeVars::check must return Err(MissingVar { .. }) for a variable that is not supplied", A.where(fn))
 
+
+def r3d_var_array_lengths(rule, root=None):
+    """ShapeBulkEval::var_array: a per-sample variable array whose length differs from the sample count - shorter
+    *or* longer - is the error MismatchedVarSlices; a one-sided test lets a short array through, and the rest of the
+    recycled row is evaluated with whatever it held"""
+    fn = A.find_fn(SHAPE, "var_array", self_ty="ShapeBulkEval", root=root)
+    row = None
+    for clo_ in A.find(fn["body"], "Closure"):
+        for p_ in clo_.get("inputs", clo_.get("params", [])):
+            if p_.get("k") == "PType" and str(p_.get("ty") or "").replace(" ", "").startswith("&mut[") and A.binding_name(p_["pat"]):
+                row = A.binding_name(p_["pat"])
+    errs = [r_ for r_ in A.find(fn["body"], "Return") if r_.get("e") is not None and "MismatchedVarSlices" in str(A.ftxt(r_["e"]))]
+    errs += [n_ for n_ in A.find(fn["body"], "Call") if "MismatchedVarSlices" in str(A.ftxt(n_)) and not any(any(x is n_ for x in A.walk(r_)) for r_ in errs) and (A.path_segs(n_["func"]) or [None])[-1] == "Err"]
+    if row is None or not errs:
+        rule.lost("the MismatchedVarSlices result of ShapeBulkEval::var_array")
+        return
+    ok_any = False
+    for e_ in errs:
+        conds = [c.replace(" ", "") for c in (A.enclosing_conds(fn["body"], e_) or [])]
+        for c in conds:
+            m = re.fullmatch(r"\(?(\w+)\.len\(\)!=(\w+)\.len\(\)\)?", c)
+            if m and row in (m.group(1), m.group(2)) and m.group(1) != m.group(2):
+                ok_any = True
+    if ok_any:
+        rule.ok("var_array: any difference between the array's length and the row's is MismatchedVarSlices", file=SHAPE, line=fn["ln"])
+    else:
+        rule.bad("var_array|lengths", "ShapeBulkEval::var_array reports MismatchedVarSlices under %s; it must be exactly `vars.len() != %s.len()` (a shorter array must be refused too: the rest of the recycled row would be evaluated with stale values)" % ([c[:60] for e_ in errs for c in (A.enclosing_conds(fn["body"], e_) or [])] or "no length comparison (a let-else / `?` on a trimmed slice is one-sided)", row), A.where(SHAPE, errs[0]))
+
 def run(ctx):
     r = ctx.rule("R1", "X/Y/Z and free variables are bound by identity; the transform is applied in axis order", 16)
     ctx.guarded(r, SC.r_axis_binding)
@@ -224,5 +252,7 @@ def run(ctx):
     ctx.guarded(r, S_.r_tail)
     r = ctx.rule("R3c", "binding a variable set to a shape checks every named variable of the shape (a missing one is MissingVar)", 2)
     ctx.guarded(r, r3c_bind_check)
+    r = ctx.rule("R3d", "a per-sample variable array of any other length than the sample count is an error (shorter as well as longer)", 1)
+    ctx.guarded(r, r3d_var_array_lengths)
     # named variables reach the inner evaluators through recycled scratch rows (C14j-1: a row "already holding" the value)
     ctx.include('C10', 'variable values are bound through recycled scratch rows', only=('R1s', 'R1v'))
